@@ -50,7 +50,8 @@ def install():
     # some code asks for these
     R.getThreadPool = lambda: None
     _main.installReactor(R)
-    time.time = lambda: EPOCH + R.seconds()
+    R.rightNow = EPOCH
+    time.time = lambda: R.seconds()
     os.urandom = URANDOM
     import allmydata.util.cputhreadpool as ctp
 
@@ -86,7 +87,7 @@ def reseed(n=0):
 
 
 def now():
-    return EPOCH + R.seconds()
+    return R.seconds()
 
 
 def drain(limit=100000):
